@@ -82,6 +82,18 @@ def run(ctx):
             lines.append("1 %s %s" % (mat_line(transpose(M, m, n), n, m), w))
         else:
             lines.append("0 %s %s" % (mat_line(M, m, n), w))
+    # long polygons with pieces glued onto several of their edges: large series members with several children (the root-series
+    # cases of the apply phase: paths through two or more consecutive series edges between two children)
+    for _ in range(8000 if q else 120000):
+        nv, E = gen.polygon_hub_graph(rng)
+        M, w = gen.graph_instance(rng, nv, len(E), False, loops=False, edges=E)
+        if not M or not M[0]:
+            continue
+        m, n = len(M), len(M[0])
+        if rng.below(2):
+            lines.append("1 %s %s" % (mat_line(transpose(M, m, n), n, m), w))
+        else:
+            lines.append("0 %s %s" % (mat_line(M, m, n), w))
     # perturbed structured matrices: one to three flipped entries in M(G,T) of glued graphs - mostly non-graphic, so the
     # column-addition algorithm has to REJECT a column inside a rich decomposition (every path/typing rule on its "no" side);
     # a wrong "yes" is caught by its certificate (code 93), a "no" is compared with the oracle up to 4 rows
